@@ -47,22 +47,27 @@ impl builtins::Command for WaitCommand {
                 if id.starts_with('%') {
                     // It's a job spec.
                     if let Some(job) = context.shell.jobs_mut().resolve_job_spec(id) {
-                        job.wait().await?;
+                        // The status of `wait` is that of the last job waited for (only its
+                        // exit code: an `exit` in the job does not end this shell).
+                        result = job.wait().await?.exit_code.into();
                     } else {
                         writeln!(
                             context.stderr(),
-                            "{}: no such job: {}",
+                            "{}: {}: no such job",
                             context.command_name,
                             id
                         )?;
 
-                        result = ExecutionExitCode::GeneralError.into();
+                        result = ExecutionExitCode::NotFound.into();
                     }
                 } else {
                     // It's a process ID.
                     return error::unimp("wait with process IDs");
                 }
             }
+
+            // A job that has been waited for is gone from the table.
+            context.shell.jobs_mut().sweep_completed_jobs();
         } else {
             // Wait for all jobs.
             let jobs = context.shell.jobs_mut().wait_all().await?;
